@@ -25,13 +25,16 @@ struct Cell {
     root: usize,
     cert: usize,
     proto: usize,
+    /// 0 = the target names the host `localhost`, 1 = the target names the address 127.0.0.1
+    host: usize,
 }
 
 impl Cell {
     fn to_json(&self) -> Json {
         json!({"backend": crate::FLAVOUR, "client": if self.client == 0 { "blocking" } else { "async" }, "ignore_tls_errors": IGNORE[self.ignore],
                "extra_root": ROOTS[self.root], "server_certificate": SERVER_KINDS[self.cert], "protocol": PROTOS[self.proto],
-               "idx": [self.client, self.ignore, self.root, self.cert, self.proto]})
+               "target_host": if self.host == 0 { "localhost" } else { "127.0.0.1" },
+               "idx": [self.client, self.ignore, self.root, self.cert, self.proto, self.host]})
     }
     fn from_json(j: &Json) -> Option<Cell> {
         let a = j["idx"].as_array()?;
@@ -42,10 +45,13 @@ impl Cell {
             root: g(2)?,
             cert: g(3)?,
             proto: g(4)?,
+            host: g(5).unwrap_or(0),
         })
     }
     fn expect_accept(&self) -> bool {
-        self.ignore == 2 || (matches!(self.root, 1 | 2 | 4 | 5) && self.cert == 0)
+        // the certificate matches the name in the target: `valid` carries DNS:localhost, kind 5 carries IP:127.0.0.1
+        let matches_host = (self.cert == 0 && self.host == 0) || (self.cert == 5 && self.host == 1);
+        self.ignore == 2 || (matches!(self.root, 1 | 2 | 4 | 5) && matches_host)
     }
 }
 
@@ -145,7 +151,7 @@ fn run_cell(c: &Cell, pki: &Pki, rt: &tokio::runtime::Runtime, st: &mut Stats) {
         _ => {}
     }
     cfg.timeout_ms = Some(15_000);
-    let uri = format!("ipps://localhost:{}/ipp/print", port);
+    let uri = format!("ipps://{}:{}/ipp/print", if c.host == 0 { "localhost" } else { "127.0.0.1" }, port);
     let req = IppOperationBuilder::get_printer_attributes(uri.parse().unwrap()).build();
     let kind = if c.client == 0 { ClientKind::Blocking } else { ClientKind::Async };
     let result = send(kind, rt, &uri, &cfg, req.into());
@@ -212,8 +218,12 @@ fn cells(ctx: &Ctx) -> Vec<Cell> {
             for ignore in 0..3 {
                 for root in 0..ROOTS.len() {
                     for cert in 0..5 {
-                        v.push(Cell { client, ignore, root, cert, proto });
+                        v.push(Cell { client, ignore, root, cert, proto, host: 0 });
                     }
+                    // the target names an IP address: only a certificate with that address as iPAddress SAN matches
+                    v.push(Cell { client, ignore, root, cert: 5, proto, host: 0 });
+                    v.push(Cell { client, ignore, root, cert: 5, proto, host: 1 });
+                    v.push(Cell { client, ignore, root, cert: 0, proto, host: 1 });
                 }
             }
         }
@@ -228,7 +238,7 @@ fn pair_cells() -> Vec<Cell> {
         for ignore in [0usize, 2] {
             for root in [0usize, 1] {
                 for cert in [0usize, 3] {
-                    v.push(Cell { client, ignore, root, cert, proto: 0 });
+                    v.push(Cell { client, ignore, root, cert, proto: 0, host: 0 });
                 }
             }
         }
@@ -310,7 +320,7 @@ pub fn run(ctx: &Ctx) -> ! {
     let mut rep = Report::new(
         ctx,
         "exploration",
-        "the complete matrix {blocking, async} x {native-tls, rustls} (two builds) x ignore flag {unset, false, true} x extra root {none, correct CA as PEM, as DER, unrelated CA, correct CA as a DER encoding whose last octet is ASCII white space (same anchor re-signed until it is), correct CA as PEM with CRLF line ends} x server certificate {valid for localhost, wrong host name, expired, self-signed, issued by an unknown CA} = 360 configurations (thorough: x {TLS 1.2, TLS 1.3} forced on the peer = 720), each a real handshake of a real Get-Printer-Attributes request against the loopback TLS peer (openssl acceptor, certificates minted at run time). plus, per backend, every ORDERED pair of an 8-configuration subset per client (128 pairs), each pair run sequentially in a fresh process (history: process-wide state left by the first client must not change the second's verdict). Oracle: accepted <=> ignore = true or (root is the correct CA in any of its four encodings and certificate valid); on rejection send() = Err AND zero application bytes reached the peer. distinct = configuration",
+        "the complete matrix {blocking, async} x {native-tls, rustls} (two builds) x ignore flag {unset, false, true} x extra root {none, correct CA as PEM, as DER, unrelated CA, correct CA as a DER encoding whose last octet is ASCII white space (same anchor re-signed until it is), correct CA as PEM with CRLF line ends} x server certificate {valid for localhost, wrong host name, expired, self-signed, issued by an unknown CA} (target names `localhost`) + {certificate for IP 127.0.0.1 with target localhost, the same with target 127.0.0.1, certificate for localhost with target 127.0.0.1} = 576 configurations (thorough: x {TLS 1.2, TLS 1.3} forced on the peer = 1152), each a real handshake of a real Get-Printer-Attributes request against the loopback TLS peer (openssl acceptor, certificates minted at run time). plus, per backend, every ORDERED pair of an 8-configuration subset per client (128 pairs), each pair run sequentially in a fresh process (history: process-wide state left by the first client must not change the second's verdict). Oracle: accepted <=> ignore = true or (root is the correct CA in any of its four encodings and certificate valid); on rejection send() = Err AND zero application bytes reached the peer. distinct = configuration",
     );
     rep.assume("localhost resolves to 127.0.0.1; the test CA is never in the system trust store");
     if let Some(p) = &ctx.replay {
